@@ -765,9 +765,43 @@ def selftest():
     assert verify_input(dict(base, ins=[dict(base["ins"][0], script=b"\x00" + txref.push(good))]), 0, [(1000, ms)])
     assert not verify_input(dict(base, ins=[dict(base["ins"][0], script=b"\x00" + txref.push(foreign))]), 0, [(1000, ms)])
     assert not verify_input(dict(base, ins=[dict(base["ins"][0], script=b"\x51" + txref.push(good))]), 0, [(1000, ms)])  # NULLDUMMY
+    n = selftest_history()
     return True
+
+
+def selftest_history():
+    """Real transactions recorded in the repository's test data (third-party data): every input whose
+    previous transaction is also recorded must be valid under the strict reference verifier."""
+    import json
+    import os
+
+    path = os.path.join(os.environ.get("VERIF_REPO", "/repo"), "buidl", "test", "tx.cache")
+    if not os.path.exists(path):
+        return 0
+    raw = json.load(open(path))
+    txs = {}
+    for k, v in raw.items():
+        try:
+            t = txref.parse_tx(bytes.fromhex(v))
+        except Exception:
+            continue
+        if txref.txid(t) == k:
+            txs[k] = t
+    n = 0
+    for k, tx in txs.items():
+        spent = []
+        for i in tx["ins"]:
+            p = txs.get(i["prev"].hex())
+            spent.append((p["outs"][i["index"]]["amount"], p["outs"][i["index"]]["script"]) if p and i["index"] < len(p["outs"]) else None)
+        if any(x is None for x in spent):
+            continue
+        for idx in range(len(tx["ins"])):
+            assert verify_input(tx, idx, spent), ("historical input rejected by the reference", k, idx)
+            assert verify_input(tx, idx, spent, relaxed=True)
+            n += 1
+    return n
 
 
 if __name__ == "__main__":
     selftest()
-    print("interp selftest ok")
+    print("interp selftest ok (historical inputs verified: %d)" % selftest_history())
